@@ -605,9 +605,11 @@ func (cr *concRun) checkStaleLoad() {
 				default:
 					cr.probe["write-after-load-finished"]++
 				}
-				// a key the bulk loader volunteered (it was not among the keys the call asked for) has
-				// its own rule names, so that the known finding about volunteered values (DESIGN.md
-				// section 9, known_findings.json) never hides a stale load of a requested key
+				// A key the bulk loader volunteered (it was not among the keys the call asked for): C09 is
+				// quantified "for requested keys of single and bulk loads", and no load "for it" was in
+				// flight that the write could have cancelled - otter installs such a value even over a
+				// newer write. That is outside the property as stated: counted as an observation, never
+				// reported (DESIGN.md section 15, "C09 and volunteered keys").
 				visRule, finRule, what := "load.stale-visible", "load.stale-final", "load"
 				volunteered := true
 				for _, lk := range l.Keys {
@@ -616,8 +618,11 @@ func (cr *concRun) checkStaleLoad() {
 					}
 				}
 				if volunteered {
-					visRule, finRule, what = "load.stale-volunteered-visible", "load.stale-volunteered-final", "bulk load of other keys, whose loader volunteered this key"
 					cr.probe["write-during-bulk-load-that-volunteers-the-key"]++
+					if fv, ok := final[k]; ok && fv == vL {
+						cr.probe["observation:volunteered-value-installed-over-newer-write"]++
+					}
+					continue
 				}
 				for _, o := range observations[k] {
 					if o.call > h.Ret && o.v == vL {
